@@ -8,7 +8,7 @@ import zipfile
 from zoneinfo import ZoneInfo
 
 from fsx import core
-from fsx.core import D, F
+from fsx.core import D, F, L
 
 ID = 'C19'
 LEVEL = 'fault_enumeration'
@@ -92,6 +92,8 @@ def groups(tier, seed):
     yield {'kind': 'config'}
     yield {'kind': 'rxroot'}
     yield {'kind': 'tz'}
+    yield {'kind': 'classcol'}
+    yield {'kind': 'names'}
     days = [(2021, 1, d) for d in range(1, 32)] + [(2021, 3, d) for d in (28, 29, 30, 31)] + [(2021, 2, 28), (2024, 2, 28), (2024, 2, 29),
                                                                                                (2020, 12, 31), (2021, 12, 31), (2021, 4, 30)]
     for i in range(0, len(days), 6):
@@ -160,7 +162,7 @@ def eval_group(env, group, tier):
             r.update(status='viol', cls=cls, detail=detail, sig=('viol', cls))
         outs.append(r)
     try:
-        if kind in ('list', 'window', 'config', 'clock', 'rxroot', 'tz', 'agg'):
+        if kind in ('list', 'window', 'config', 'clock', 'rxroot', 'tz', 'agg', 'classcol'):
             core.materialise(root, list_tree())
         if kind == 'list':
             w, order = group['where'], group['order']
@@ -197,6 +199,55 @@ def eval_group(env, group, tier):
                             bad = ('not-top-n', {'got': ks[:8], 'expected': full[:8]})
                     emit(sub, bad is None, 'listing:' + (bad[0] if bad else ''), {'query': q, 'why': bad[1] if bad else None},
                          nt=arc, sig=(arc, N, len(rows or [])), layer='list')
+        elif kind == 'classcol':
+            # what the query asks about each entry (the file-class columns: is_archive, is_source, ...) neither adds nor removes a member
+            ords = ordinary_rows(root)
+            members = [member_row(os.path.basename(a), a, m) for a, ms in ARCHIVES.items() for m in ms]
+            exp = sorted(r[1] for r in ords + members)
+            plain = env.run(['path from . where is_archive = true into list'], cwd=root)
+            for mode in ('', ' dfs'):
+                for col in ('is_archive', 'is_source', 'is_doc', 'is_image', 'is_audio', 'is_book', 'is_font', 'is_video'):
+                    for q, ncol in (('path, %s from . archives%s' % (col, mode), 2), ('%s, path from . archives%s' % (col, mode), -2),
+                                    ('path from . archives%s where %s = true or path like %%' % (mode, col), 1),
+                                    ('path from . archives%s where size ge 0 and (%s = true or size ge 0)' % (mode, col), 1),
+                                    ('path from . archives%s order by %s, path' % (mode, col), 1),
+                                    ('path from . archives%s where is_dir = false or %s = false or 1 = 1' % (mode, col), 1)):
+                        o = env.run([q + ' into list'], cwd=root)
+                        rows = o.rows(abs(ncol)) if abs(ncol) > 1 else o.rows()
+                        got = sorted((r_[0] if ncol > 0 else r_[1]) if abs(ncol) > 1 else r_ for r_ in (rows or []))
+                        emit(['classcol', q], o.rc == 0 and not o.err and got == exp, 'members-depend-on-a-class-column',
+                             dict(o.brief(), query=q, missing=sorted(set(exp) - set(got))[:5], extra=sorted(set(got) - set(exp))[:5]), layer='classcol')
+                # and the other way round: the archive search does not change what the column says about ordinary files
+                for w in ('is_file = true and is_archive = true', "name like '%.%' and is_archive = true", 'is_dir = false and size ge 0 and is_archive = true',
+                          'is_archive = true'):
+                    q = "path from . archives%s where %s and path notlike '%%[%%'" % (mode, w)
+                    o = env.run([q + ' into list'], cwd=root)
+                    want = sorted(r_ for r_ in plain.rows() if os.path.isfile(os.path.join(root, r_)) or 'is_file' not in w and 'is_dir' not in w)
+                    emit(['classcol-back', q], plain.rc == 0 and o.rc == 0 and not o.err and sorted(o.rows()) == want, 'class-column-depends-on-the-archive-search',
+                         dict(o.brief(), query=q, expected=want), layer='classcol')
+        elif kind == 'names':
+            # one archive under several names (symbolic links, hard links; followed or not): its members are listed under every name that is searched
+            z = zbytes(MEMBERS[:2])
+            core.materialise(root, {'a.zip': F(data=z), 'l.zip': L('a.zip'), 'k.jar': L('sub/../a.zip'), 'sub': D({'h.zip': {'t': 'f', 'link': 'a.zip'}, 'm.zip': L('../a.zip')}),
+                                    'other': D({'o.zip': L('../sub/h.zip'), 'plain': F(1)}), 'dangling.zip': L('nowhere.zip'), 'dirlink.zip': L('sub')})
+            ords = [r_[1] for r_ in ordinary_rows(root)]
+            for opts in ('archives symlinks', 'symlinks archives', 'archives symlinks dfs', 'archives', 'archives dfs'):
+                for frm in ('.', 'sub, .', 'other, sub'):
+                    q = 'path from ' + ', '.join(r_ + ' ' + opts for r_ in frm.split(', '))
+                    o = env.run([q + ' into list'], cwd=root)
+                    base = env.run(['path from ' + ', '.join(r_ + ' ' + opts.replace('archives', '').strip() for r_ in frm.split(', ')) + ' into list'], cwd=root)
+                    exp = list(base.rows())
+                    follow = 'symlinks' in opts
+                    for a in base.rows():
+                        full = os.path.join(root, a)
+                        if a.lower().endswith(('.zip', '.jar')) and os.path.isfile(full) and (follow or not os.path.islink(full)):
+                            exp += ['[%s] %s' % (a, m[0]) for m in MEMBERS[:2]]
+                    got_ = o.rows()
+                    if not follow:      # whether a link that is not followed is opened as an archive is not stated: only real names are compared
+                        links_ = tuple('[%s] ' % a for a in base.rows() if os.path.islink(os.path.join(root, a)))
+                        got_ = [r_ for r_ in got_ if not (links_ and r_.startswith(links_))]
+                    emit(['names', q], base.rc == 0 and o.rc == 0 and sorted(got_) == sorted(exp), 'members-under-every-name-of-an-archive',
+                         dict(o.brief(), query=q, missing=sorted(set(exp) - set(o.rows()))[:6], extra=sorted(set(o.rows()) - set(exp))[:6]), nt=follow, layer='names')
         elif kind == 'agg':
             # aggregates see every member whatever LIMIT says; LIMIT trims result rows only
             ords = ordinary_rows(root)
